@@ -45,6 +45,17 @@ def obligations(ctx, tier):
                 out += core.g_row(K, PROP, inh(A, m), arith.reps(A, "T", lambda W, env: ("none",) if env[0].v <= 0 else ("not", ("none",))))
             out += core.g_row(K, PROP, inh(A, "checked_ilog"),
                               arith.reps(A, "TT", lambda W, env: ("none",) if (env[0].v <= 0 or env[1].v < 2) else ("not", ("none",))))
+            # ---- band representatives: |base|^k strictly between 2^(BITS-1) and 2^BITS (sign / range decision of the signed forms)
+            for form in forms:
+                name = "pow" if form == "plain" else form + "_pow"
+                out += core.g_row(K, PROP, inh(A, name), band_reps(A, form, K.debug))
+            # ---- exponents near u32::MAX (a shortcut that multiplies the exponent must not wrap)
+            for form in forms:
+                name = "pow" if form == "plain" else form + "_pow"
+                out += core.g_row(K, PROP, inh(A, name), huge_exp_reps(A, form, K.debug))
+            # ---- logarithm values on (self, base) pairs whose answer is decided before / without the iteration
+            out += core.g_row(K, PROP, inh(A, "checked_ilog"), ilog_value_reps(A, "checked"))
+            out += core.g_row(K, PROP, inh(A, "ilog"), ilog_value_reps(A, "plain"))
     return out
 
 
@@ -56,3 +67,87 @@ def pw(a, e):
     if a == -1:
         return -1 if e % 2 else 1
     return a ** e
+
+
+def _iroot(x, k):
+    lo, hi = 0, 1 << (x.bit_length() // k + 1)
+    while lo < hi:
+        mid = (lo + hi + 1) // 2
+        if mid ** k <= x:
+            lo = mid
+        else:
+            hi = mid - 1
+    return lo
+
+
+def band_reps(A, form, debug):
+    out = []
+    for k in (3, 5, 2, 4):
+        for sign in ((-1, 1) if is_signed(A) else (1,)):
+            for which in ("top", "mid"):
+                def env_fn(W, k=k, sign=sign, which=which):
+                    w = W.bits(A)
+                    # top: largest base with base^k < 2^w ; mid: smallest base with base^k > 2^(w-1)
+                    b = _iroot((1 << w) - 1, k) if which == "top" else _iroot(1 << (w - 1), k) + 1
+                    return {0: W.wrap(A, sign * b), 1: PI("u32", k)}
+                out.append(("band_%s_k%d_%s" % (which, k, "neg" if sign < 0 else "pos"), env_fn,
+                            arith.form_expect(form, A, lambda W, a, e: pw(a, e), "overflow(pow)", debug)))
+    return out
+
+
+def ilog_value_reps(A, form):
+    from analysis.facts import DIGIT
+    db = {"u8": 8, "u16": 16, "u32": 32, "u64": 64}[DIGIT[A]]
+    bases = [("hd", lambda W: 1 << (db // 2)), ("hd1", lambda W: (1 << (db // 2)) + 1), ("q", lambda W: 1 << max(2, W.bits(A) // 4)),
+             ("dm1", lambda W: (1 << db) - 1 if W.bits(A) > db else 3), ("three", lambda W: 3), ("ten", lambda W: 10)]
+    selfs = [("MAX", lambda W, b: arith.rng(W, A)[1]), ("cube", lambda W, b: min(b ** 3, arith.rng(W, A)[1])), ("sq", lambda W, b: min(b * b, arith.rng(W, A)[1])),
+             ("sqm1", lambda W, b: min(b * b - 1, arith.rng(W, A)[1])), ("eq", lambda W, b: min(b, arith.rng(W, A)[1])), ("lt", lambda W, b: b - 1)]
+
+    def exp(W, env):
+        x, b = env[0].v, env[1].v
+        if x <= 0 or b < 2:
+            return ("any",)
+        r, p = 0, b
+        while p <= x:
+            r += 1
+            p *= b
+        return ("some", PI("u32", r)) if form == "checked" else ("val", PI("u32", r))
+    out = []
+    for bn, bf in bases:
+        for sn, sf in selfs:
+            out.append(("lv_%s_%s" % (sn, bn), (lambda bf=bf, sf=sf: lambda W: {0: W.wrap(A, sf(W, min(bf(W), arith.rng(W, A)[1]))), 1: W.wrap(A, min(bf(W), arith.rng(W, A)[1]))})(), exp))
+    return out
+
+
+def huge_exp_reps(A, form, debug):
+    """base in {0, 1, -1, 2, 2^(w/2), 3, MAX, MIN} x exponent in {2^26, 2^31, 2^32 - 1}: the exact power is astronomically
+    large, so the expectation is computed modularly"""
+    bases = [("0", lambda W: 0), ("1", lambda W: 1), ("2", lambda W: 2), ("half", lambda W: 1 << (W.bits(A) // 2)), ("3", lambda W: 3),
+             ("MAX", lambda W: arith.rng(W, A)[1])]
+    if is_signed(A):
+        bases += [("n1", lambda W: -1), ("n2", lambda W: -2), ("MIN", lambda W: arith.rng(W, A)[0])]
+
+    def exp(W, env):
+        a, e = env[0].v, env[1].v
+        w = W.bits(A)
+        lo, hi = arith.rng(W, A)
+        over = abs(a) >= 2
+        wr = W.wrap(A, pow(a, e, 1 << w))
+        if form == "overflowing":
+            return ("val", ("tuple", (wr, over)))
+        if form == "checked":
+            return ("none",) if over else ("some", wr)
+        if form == "wrapping":
+            return ("val", wr)
+        if form == "saturating":
+            if not over:
+                return ("val", wr)
+            return ("val", W.wrap(A, lo if (a < 0 and e % 2) else hi))
+        if form == "strict" or (form == "plain" and debug):
+            return ("panic", "overflow(pow)") if over else ("val", wr)
+        return ("val", wr)
+    out = []
+    for bn, bf in bases:
+        for en, e in (("2p26", 1 << 26), ("2p31", 1 << 31), ("u32max", (1 << 32) - 1), ("2p31p1", (1 << 31) + 1)):
+            out.append(("huge_%s_%s" % (bn, en), (lambda bf=bf, e=e: lambda W: {0: W.wrap(A, bf(W)), 1: PI("u32", e)})(), exp))
+    return out
